@@ -28,7 +28,18 @@ def generate(seed, run, tier):
     name = V.OBS_NAMES[run % 4] if r.random() < 0.7 else r.choice(V.OBS_NAMES)
     area = V.gen_area(r, name, 9 if big else 7)
     world = V.gen_view_world(r, 8 if big else 6, 8 if big else 6)
-    ops = []
+    if r.random() < 0.12:
+        # boundary condition: the view covers the grid exactly for one pose
+        from gvsim.worlds import aligned_pose
+        from gvsim.lib import COLORS as _C, BUILTIN_TYPES as _T
+        from gvsim import worlds as _W
+
+        hd = r.choice(HEADINGS)
+        ah, aw, ay, ax = aligned_pose(area, hd)
+        if 0 <= ay < ah and 0 <= ax < aw:
+            world = _W.gen_world(r, ah, aw, list(_T), _C, valid_start=False)
+            world['agent'][0], world['agent'][1], world['agent'][2] = ay, ax, hd
+    ops = [['read', 'real', r.randrange(2**31), False], ['read', 'uniform', r.randrange(2**31), True], ['read', 'real', r.randrange(2**31), False]]
     for _ in range(r.randint(12, 40)):
         m = r.random()
         if m < 0.5:
